@@ -936,6 +936,22 @@ func sweeps(thorough bool, rng *rand.Rand) (rs []run, hs []*honest) {
 				}
 			}
 		}
+		// segments of ANOTHER document made by the real Encrypt (its own random file key and nonce prefix) spliced in
+		{
+			other := mkHonest(cph, 2*segSize+shortLen+1, "other-real")
+			for u := 0; u < 3; u++ {
+				var d bytes.Buffer
+				d.Write(big.hdr)
+				for j := range big.units {
+					if j == u {
+						d.Write(other.units[u].bytes())
+					} else {
+						d.Write(big.units[j].bytes())
+					}
+				}
+				add(big, run{Class: "splice-replace-real-document", Doc: d.Bytes(), Desc: fmt.Sprintf("stored segment %d replaced by stored segment %d of another document produced by the real Encrypt", u, u)})
+			}
+		}
 		// header lines whose (base64) payload is LONGER than what Encrypt writes
 		for _, h := range []*honest{small, big} {
 			lr := lineRanges(h.hdr)
